@@ -44,6 +44,9 @@ pub struct Case {
     #[serde(default)]
     pub symlinked: Option<usize>,
     pub zod: bool,
+    /// that many extra source files, one command each, spread over directories of depth 0..3
+    #[serde(default)]
+    pub many: usize,
 }
 
 impl Case {
@@ -62,6 +65,12 @@ impl Case {
                 }
             }
             files.push((POSITIONS[*pos].to_string(), s));
+        }
+        for i in 0..self.many {
+            let dir = ["src", "src/mods", "src/mods/deep", "src/mods/deep/er"][i % 4];
+            let name = format!("many_{}", i);
+            files.push((format!("{}/m{:02}.rs", dir, i), format!("#[tauri::command]\npub fn {}(a: i32) -> i32 {{ a }}\npub fn helper_{}() {{}}\n", name, i)));
+            expected.insert(name);
         }
         let mut links = vec![];
         if let Some(k) = self.symlinked {
@@ -299,12 +308,21 @@ pub fn run(tier: Tier) -> CheckResult {
                 // every third layout has one of its files symlinked in from outside the project
                 symlinked: if i % 3 == 2 { Some(i % l.len()) } else { None },
                 zod: i % 2 == 1,
+                many: 0,
             });
         }
     }
+    // many source files: every count from 5 to 40 (quick) / 96 (thorough), one command per file, alone
+    // and next to a two-file layout with decoys
+    for many in 5..=(if tier == Tier::Quick { 40 } else { 96 }) {
+        for zod in [false, true] {
+            cases.push(Case { files: vec![], decoy_target: false, decoy_git: false, decoy_txt: false, unparsable: false, under_target_dir: false, symlinked: None, zod, many });
+        }
+        cases.push(Case { files: vec![(0, vec![0, 7]), (2, vec![1])], decoy_target: true, decoy_git: true, decoy_txt: true, unparsable: many % 2 == 0, under_target_dir: false, symlinked: None, zod: many % 2 == 1, many });
+    }
     // the project itself below a directory named target
     for l in layouts.iter().filter(|l| l.len() == 1 && l[0].1.len() == 1).take(8) {
-        cases.push(Case { files: l.clone(), decoy_target: false, decoy_git: false, decoy_txt: false, unparsable: false, under_target_dir: true, symlinked: None, zod: false });
+        cases.push(Case { files: l.clone(), decoy_target: false, decoy_git: false, decoy_txt: false, unparsable: false, under_target_dir: true, symlinked: None, zod: false, many: 0 });
     }
     let results: Vec<Option<(Vec<Violation>, bool, Option<String>)>> = cases.par_iter().map(|c| if deadline.passed() { None } else { Some(eval(c)) }).collect();
     let mut evaluations = 0u64;
@@ -348,7 +366,7 @@ pub fn run(tier: Tier) -> CheckResult {
     res.coverage.set("outputs_not_parsable_here", unparsable_out);
     res.coverage.set("exhaustive", exhaustive);
     res.coverage.set("samples", json!(cases.iter().step_by((cases.len() / 5).max(1)).take(5).collect::<Vec<_>>()));
-    res.coverage.set("rule", "projects: 1..4 source files at directory depths 0..3, each holding a subset of the 14-item menu - one file: every subset of up to 4 (thorough: 5) items at every directory position; two files: every pair of subsets of up to 2 items; three files: every triple of single items; four files (thorough): every quadruple over a 6-item menu - (7 command spellings: tauri::command / command / with arguments, visibility, async, attribute order, doc comments, generics; 7 decoys: other::command, impl method, nested mod, helper fn, cfg_attr, const+macro text, look-alike paths), crossed with decoy trees (target/, .git/, non-.rs files, an unparsable .rs: three of the 16 combinations per layout in quick, all 16 in thorough); ground truth = the generator's own list of annotated top-level fns; oracle: the set of invoke() literals in the parsed commands.ts equals it, one exported function per command, each returning a Promise; adding the unparsable file changes nothing else (differential run). Non-trivial = at least one item present and the project accepted.");
+    res.coverage.set("rule", "projects: 1..4 source files at directory depths 0..3 (plus every file count from 5 to 40 / 96 with one command per file), each holding a subset of the 14-item menu - one file: every subset of up to 4 (thorough: 5) items at every directory position; two files: every pair of subsets of up to 2 items; three files: every triple of single items; four files (thorough): every quadruple over a 6-item menu - (7 command spellings: tauri::command / command / with arguments, visibility, async, attribute order, doc comments, generics; 7 decoys: other::command, impl method, nested mod, helper fn, cfg_attr, const+macro text, look-alike paths), crossed with decoy trees (target/, .git/, non-.rs files, an unparsable .rs: three of the 16 combinations per layout in quick, all 16 in thorough); ground truth = the generator's own list of annotated top-level fns; oracle: the set of invoke() literals in the parsed commands.ts equals it, one exported function per command, each returning a Promise; adding the unparsable file changes nothing else (differential run). Non-trivial = at least one item present and the project accepted.");
     res.assumptions = vec!["return and parameter types are restricted to atoms that pass C05".into()];
     res
 }
